@@ -257,3 +257,11 @@ Definition session_ok (p : session) : bool :=
   && (se_expires_ntp p <? 4294967296)%N
   && time_ok (se_rf p) && time_ok (se_rx_obj p) && time_ok (se_rx_obj p + 2000000)
   && (se_order p || (se_rf p <=? se_rx_obj p)).
+
+(* with the expiry check disabled expiry is ignored WHATEVER Expires says, also when it does not fit NTP era 0
+   (an FDT valid for decades): the guard on Expires of [session_ok] is not needed then *)
+Definition session_ok_unchecked (p : session) : bool :=
+  negb (se_chk p)
+  && (0 <=? se_t0 p) && (0 <=? se_xf p) && (negb (se_sct p) || (se_t0 p + se_xf p <? 2085978496000000000))
+  && time_ok (se_rf p) && time_ok (se_rx_obj p) && time_ok (se_rx_obj p + 2000000)
+  && (se_order p || (se_rf p <=? se_rx_obj p)).
